@@ -99,6 +99,11 @@ def one_schedule(cfg, choices):
 
     trees = WORKLOADS[cfg["workload"]]
     install_read_seam()
+    from .. import sched as _sched
+
+    if cfg.get("sql"):
+        _sched.install_sql_seam()
+    _sched._SQL["on"] = bool(cfg.get("sql"))
     with World() as w:
         root = w.root
         for i, t in enumerate(trees):
@@ -330,6 +335,11 @@ def configs(tier):
             yield {"workload": name, "mode": mode, "first": None, "caps": False, "upload": True}, \
                 (2 if tier == "thorough" and mode == "threads" else 1)
     yield {"workload": "swapped", "mode": "threads", "first": None, "caps": False}, 1
+    # SQL pass: statements on the shared state database (outside transactions) are scheduling points too
+    for mode in ("threads", "procs"):
+        for name in ("identical", "overlap"):
+            yield {"workload": name, "mode": mode, "first": None, "caps": False, "sql": True}, \
+                (2 if (mode == "threads" or tier == "thorough") else 1)
     # fine-grained pass: events on the writers' private workspaces are scheduling points too, so that the
     # staging phases (which touch only memory and private files) interleave as well
     for name in wl:
@@ -351,6 +361,7 @@ def run(ctx):
         "events on a writer's private workspace are not points (they commute with everything) except in the "
         "fine-grained pass, where they are, so that the memory-only staging phases interleave too",
         "in-memory shared state (ObjectDB._dirs, staging url cache, memfs) is only interleaved at these points",
+        "SQL pass: a writer is never parked inside a database transaction (statements after BEGIN are not points)",
     ]
     ctx.require("schedules", "preempted_schedules", "adjacent_conflicts")
     cfgs = list(configs(ctx.tier))
